@@ -827,8 +827,10 @@ func runMinimize(t *simrt.Tape, rc *RunCtx) *Violation {
 	in.describe(rc.Instance)
 	prop := activeProp
 	c19 := prop == "C19"
-	rc.declare("method_value_reused", "limit_overshoot_by_concurrency", "result_nil_early_error", "recorder_error_injected", "status_callback_terminated_run",
-		"runtime_limit_hit", "nan_or_inf_objective_hit", "method_done_with_tasks_in_flight", "trailing_major_iterations", "init_values_used", "isolated_cause_run",
+	if c19 {
+		rc.declare("recorder_error_injected", "status_callback_terminated_run", "runtime_limit_hit")
+	}
+	rc.declare("method_value_reused", "limit_overshoot_by_concurrency", "result_nil_early_error", "nan_or_inf_objective_hit", "method_done_with_tasks_in_flight", "trailing_major_iterations", "init_values_used", "isolated_cause_run",
 		"concurrent_evaluations_overlapped", "tiny_limit_below_one_generation")
 
 	single := !isGlobal(in.method) // one task token circulates
